@@ -19,17 +19,20 @@ import (
 var replayBudget = 2 // replays per check run (each costs a package test build)
 
 type replayResult struct {
-	Attempted  bool   `json:"attempted"`
-	Reproduced bool   `json:"reproduced"`
-	Command    string `json:"command,omitempty"`
-	Output     string `json:"output,omitempty"`
-	Test       string `json:"test_source,omitempty"`
-	Why        string `json:"why_not,omitempty"`
+	Attempted  bool     `json:"attempted"`
+	Reproduced bool     `json:"reproduced"`
+	Command    string   `json:"command,omitempty"`
+	Output     string   `json:"output,omitempty"`
+	Test       string   `json:"test_source,omitempty"`
+	Why        string   `json:"why_not,omitempty"`
+	Extra      []string `json:"extra_args,omitempty"`
+	Marker     string   `json:"reproduced_if_output_has,omitempty"`
+	full       string
 }
 
 var replayCache = map[string]replayResult{}
 
-func runReplayTest(repo, testSrc string) (res replayResult) {
+func runReplayTest(repo, testSrc string, extra ...string) (res replayResult) {
 	if r, ok := replayCache[testSrc]; ok {
 		return r
 	}
@@ -38,7 +41,7 @@ func runReplayTest(repo, testSrc string) (res replayResult) {
 			replayCache[testSrc] = res
 		}
 	}()
-	res = replayResult{Test: testSrc}
+	res = replayResult{Test: testSrc, Extra: extra}
 	if replayBudget <= 0 {
 		res.Why = "replay budget of this run used up by earlier violations"
 		return res
@@ -56,15 +59,17 @@ func runReplayTest(repo, testSrc string) (res replayResult) {
 	ov, _ := json.Marshal(map[string]any{"Replace": map[string]string{filepath.Join(abs, "zz_verif_replay_test.go"): tf}})
 	ovf := filepath.Join(dir, "overlay.json")
 	os.WriteFile(ovf, ov, 0o644)
-	args := []string{"test", "-overlay", ovf, "-vet=off", "-count=1", "-timeout", "60s", "-run", "^TestVerifReplay$", "."}
+	args := append([]string{"test", "-overlay", ovf, "-vet=off", "-count=1", "-timeout", "120s", "-run", "^TestVerifReplay$"}, extra...)
+	args = append(args, ".")
 	cmd := exec.Command("go", args...)
 	cmd.Dir = abs
 	cmd.Env = append(os.Environ(), "GOFLAGS=-mod=mod", "GOPROXY=off")
 	out, _ := cmd.CombinedOutput()
 	res.Attempted = true
 	res.Command = "go " + strings.Join(args, " ") + "   (in " + abs + ", overlay injects the test source below as zz_verif_replay_test.go)"
-	res.Output = truncate(string(out), 3000)
+	res.Output = truncate(string(out), 6000)
 	res.Reproduced = strings.Contains(string(out), "REPLAY-REPRODUCED")
+	res.full = string(out)
 	if !res.Reproduced {
 		res.Why = "the real code did not misbehave on the replayed input"
 	}
@@ -101,7 +106,10 @@ func cmdReplay(args []string) {
 		fmt.Printf("re-run ./check %s to re-generate and re-discharge the obligation from the current tree\n", rec.Property)
 		os.Exit(1)
 	}
-	r := runReplayTest(*repo, rec.Replay.Test)
+	r := runReplayTest(*repo, rec.Replay.Test, rec.Replay.Extra...)
+	if rec.Replay.Marker != "" {
+		r.Reproduced = strings.Contains(r.full, "DATA RACE") && strings.Contains(r.full, rec.Replay.Marker)
+	}
 	fmt.Println(r.Command)
 	fmt.Println(r.Output)
 	if r.Reproduced {
@@ -215,5 +223,138 @@ func TestVerifReplay(t *testing.T) {
 		}
 		t.Fatalf("REPLAY-REPRODUCED: %%s length %%d in-place=%%v: output differs from the reference at byte %%d (got %%#x want %%#x)", fn, n, inplace, k, dst[k], want[k])
 	}
+}
+`
+
+var raceNameRe = regexp.MustCompile(`^(UDPSession|Listener)\.([A-Za-z0-9_]+)(\$[0-9]+)?:`)
+
+// raceReplayTest (C14): a client/server pair with echo traffic, every locked setter running in a
+// loop, and the function named by the failed obligation called concurrently (through reflection
+// if it is an exported method; unexported ones are the library's own goroutines and run
+// anyway), under the Go race detector. Reproduced = the detector reports a race whose stacks
+// contain that function.
+func raceReplayTest(name string) (src string, marker string, ok bool) {
+	m := raceNameRe.FindStringSubmatch(name)
+	if m == nil {
+		return "", "", false
+	}
+	return fmt.Sprintf(raceReplayTmpl, m[1], m[2]), "(*" + m[1] + ")." + m[2], true
+}
+
+const raceReplayTmpl = `package kcp
+
+import (
+	"reflect"
+	"sync"
+	"testing"
+	"time"
+)
+
+func verifReplayArgs(m reflect.Value, i int) []reflect.Value {
+	var out []reflect.Value
+	for k := 0; k < m.Type().NumIn(); k++ {
+		t := m.Type().In(k)
+		switch {
+		case t.Kind() == reflect.Int:
+			out = append(out, reflect.ValueOf(1000+i%%200))
+		case t.Kind() == reflect.Bool:
+			out = append(out, reflect.ValueOf(i%%2 == 0))
+		case t == reflect.TypeOf(time.Time{}):
+			out = append(out, reflect.ValueOf(time.Now().Add(time.Second)))
+		case t == reflect.TypeOf([]byte(nil)):
+			out = append(out, reflect.ValueOf([]byte("verif")))
+		default:
+			out = append(out, reflect.Zero(t))
+		}
+	}
+	return out
+}
+
+func TestVerifReplay(t *testing.T) {
+	recvType, method := %q, %q
+	l, err := ListenWithOptions("127.0.0.1:0", nil, 2, 1)
+	if err != nil {
+		t.Fatal(err)
+	}
+	stop := make(chan struct{})
+	var wg sync.WaitGroup
+	var srv *UDPSession
+	ready := make(chan struct{})
+	go func() {
+		s, err := l.AcceptKCP()
+		if err != nil {
+			return
+		}
+		srv = s
+		close(ready)
+		buf := make([]byte, 4096)
+		for {
+			n, err := s.Read(buf)
+			if err != nil {
+				return
+			}
+			s.Write(buf[:n])
+		}
+	}()
+	c, err := DialWithOptions(l.Addr().String(), nil, 2, 1)
+	if err != nil {
+		t.Fatal(err)
+	}
+	c.Write([]byte("hello"))
+	select {
+	case <-ready:
+	case <-time.After(5 * time.Second):
+		t.Fatal("no accept")
+	}
+	loop := func(f func(i int)) {
+		wg.Add(1)
+		go func() {
+			defer wg.Done()
+			for i := 0; ; i++ {
+				select {
+				case <-stop:
+					return
+				default:
+				}
+				f(i)
+			}
+		}()
+	}
+	for _, s := range []*UDPSession{c, srv} {
+		s := s
+		loop(func(i int) { s.SetDeadline(time.Now().Add(50 * time.Millisecond)); s.Write(make([]byte, 64)); s.Read(make([]byte, 64)) })
+		loop(func(i int) {
+			s.SetMtu(1000 + i%%200)
+			s.SetWindowSize(64+i%%64, 64+i%%64)
+			s.SetNoDelay(i%%2, 10+i%%10, 2, 1)
+			s.SetACKNoDelay(i%%2 == 0)
+			s.SetWriteDelay(i%%2 == 0)
+			s.SetStreamMode(true)
+			s.SetLogger(0, nil)
+			s.GetOOBMaxSize()
+			s.SendOOB([]byte("oob"))
+			s.GetConv()
+			s.GetRTO()
+			s.GetSRTT()
+			s.GetSRTTVar()
+		})
+	}
+	var recv reflect.Value
+	if recvType == "Listener" {
+		recv = reflect.ValueOf(l)
+	} else {
+		recv = reflect.ValueOf(c)
+	}
+	if m := recv.MethodByName(method); m.IsValid() && method != "Close" {
+		for g := 0; g < 2; g++ {
+			loop(func(i int) { m.Call(verifReplayArgs(m, i)) })
+		}
+	}
+	time.Sleep(1500 * time.Millisecond)
+	close(stop)
+	wg.Wait()
+	c.Close()
+	srv.Close()
+	l.Close()
 }
 `
